@@ -43,14 +43,16 @@ func c17Sinks() {
 	rc, sm := PubRecordsChan, PubSummariesChan
 	go func() {
 		for {
-			if _, ok := <-rc; !ok {
+			_, ok := <-rc
+			if !ok {
 				return
 			}
 		}
 	}()
 	go func() {
 		for {
-			if _, ok := <-sm; !ok {
+			_, ok := <-sm
+			if !ok {
 				return
 			}
 		}
